@@ -51,3 +51,8 @@ CASES += [
     m("refinement setter ignores an unchanged value", "C15-E2", P,
       "        self.Nref = Nref\n        self.dt = self.Odt/self.Nref", "        if Nref == self.Nref:\n            return\n        self.Nref = Nref\n        self.Nref = max(Nref, 2)\n        self.dt = self.Odt/self.Nref"),
 ]
+
+CASES += [
+    m("rate kernel transforms the shared system-bath operators in place", "C15-E3", "quantarhei/qm/liouvillespace/rates/redfieldrates.py",
+      "        KI = self.sbi.KK.copy()", "        KI = self.sbi.KK"),
+]
